@@ -130,6 +130,9 @@ def r2_roundtrip(a, tier):
         ('Pattern plain', Stub(Q['Pattern'], pattern=r'\d+'), ('pat', r'\d+')),
         ('Pattern with slash', Stub(Q['Pattern'], pattern=r'a/b'), ('pat', r'a/b')),
         ('Pattern of one dot (/./ is the any-character atom, which does not skip whitespace)', Stub(Q['Pattern'], pattern='.'), ('pat', '.')),
+        ('Pattern with an escaped slash', Stub(Q['Pattern'], pattern=r'a\/b'), ('pat', r'a\/b')),
+        ('Pattern with an escaped backslash before a slash', Stub(Q['Pattern'], pattern=r'[\\/]'), ('pat', r'[\\/]')),
+        ('Pattern with escaped backslash, slash, escaped slash', Stub(Q['Pattern'], pattern=r'x\\/y\/z'), ('pat', r'x\\/y\/z')),
         ('Pattern beginning with a blank', Stub(Q['Pattern'], pattern=' a'), ('pat', ' a')),
         ('Pattern ending with a blank', Stub(Q['Pattern'], pattern='a +'[:2] + ' '), ('pat', 'a  ')),
         ('Pattern holding a literal tab', Stub(Q['Pattern'], pattern='a\tb'), ('pat', 'a\tb')),
